@@ -220,6 +220,157 @@ theorem fastClean_endsNL (input : Bytes) : fastClean input = [] ∨ EndsNL (fast
 write past `dst` (non-vacuity of the hypothesis of `fastClean_length_le`). -/
 example : (fastClean [65]).length = 2 := by decide
 
+/-! ### `clean` with code keywords (PYINPUT … PYEND, DYNAMICR … ENDDYN) -/
+
+theorem findSub_spec (pat : Bytes) : ∀ (l : Bytes) (p : Nat), findSub pat l = some p →
+    ∃ t, l.drop p = pat ++ t := by
+  intro l
+  induction l with
+  | nil =>
+    intro p h
+    simp only [findSub] at h
+    split at h
+    · next he =>
+      cases h
+      have : pat = [] := by simpa using he
+      exact ⟨[], by simp [this]⟩
+    · cases h
+  | cons c r ih =>
+    intro p h
+    simp only [findSub] at h
+    split at h
+    · next hpre =>
+      cases h
+      obtain ⟨t, ht⟩ := List.isPrefixOf_iff_prefix.mp hpre
+      exact ⟨t, by simpa using ht.symm⟩
+    · split at h
+      · next k hk =>
+        cases h
+        obtain ⟨t, ht⟩ := ih k hk
+        exact ⟨t, by simpa using ht⟩
+      · cases h
+
+theorem endsNL_drop (l : Bytes) (k : Nat) (h : EndsNL l) : l.drop k = [] ∨ EndsNL (l.drop k) := by
+  by_cases hk : k < l.length
+  · right
+    unfold EndsNL at *
+    rw [List.getLast?_drop]
+    simp [hk, h]
+  · left
+    exact List.drop_eq_nil_of_le (by omega)
+
+/-- the slow path of `clean` never writes past `dst` (sized `str.size()`) either, provided
+no end string of a code keyword contains a newline (PYEND, ENDDYN do not): a copied block
+plus its `'\n'` is never longer than the input it consumes. -/
+theorem cleanSlow_length_le (kws : List (Bytes × Bytes))
+    (hk : ∀ kw ∈ kws, kw.2 ≠ [] ∧ ∀ b ∈ kw.2, b ≠ 10) :
+    ∀ (fuel : Nat) (input : Bytes), input = [] ∨ EndsNL input →
+      (cleanSlow kws fuel input).length ≤ input.length := by
+  intro fuel
+  induction fuel with
+  | zero => intro input _; simp [cleanSlow]
+  | succ fuel ih =>
+    intro input hin
+    -- one ordinary line
+    have line_step : ∀ (inp : Bytes), inp = [] ∨ EndsNL inp →
+        (match getline inp with
+          | none => ([] : Bytes)
+          | some (line, rest) => cleanLine line ++ [10] ++ cleanSlow kws fuel rest).length ≤ inp.length := by
+      intro inp hinp
+      rcases hinp with rfl | hnl
+      · simp [getline]
+      · obtain ⟨line, rest, hg, heq, _, hrest⟩ := getline_endsNL inp hnl
+        rw [hg]
+        have h1 := cleanLine_length_le line
+        have h2 := ih rest hrest
+        have : inp.length = line.length + 1 + rest.length := by rw [heq]; simp; omega
+        simp only [List.length_append, List.length_cons, List.length_nil]
+        omega
+    simp only [cleanSlow]
+    cases hcs : codeStart kws input with
+    | none =>
+      simp only
+      have := line_step input hin
+      cases hg : getline input with
+      | none => simp
+      | some lr =>
+        obtain ⟨line, rest⟩ := lr
+        rw [hg] at this
+        simpa [List.append_assoc] using this
+    | some kw =>
+      have hkw : kw ∈ kws := by
+        unfold codeStart at hcs
+        exact List.mem_of_find?_eq_some hcs
+      obtain ⟨hne, hno⟩ := hk kw hkw
+      simp only
+      cases hf : findSub kw.2 input with
+      | none => simp [getline]
+      | some p =>
+        simp only
+        obtain ⟨t, ht⟩ := findSub_spec kw.2 input p hf
+        have hlen : p + kw.2.length + t.length = input.length := by
+          have := congrArg List.length ht
+          simp only [List.length_drop, List.length_append] at this
+          have hp : p ≤ input.length := by
+            by_cases hp : p ≤ input.length
+            · exact hp
+            · exfalso
+              have : input.drop p = [] := List.drop_eq_nil_of_le (by omega)
+              rw [this] at ht
+              cases hpat : kw.2 with
+              | nil => exact hne hpat
+              | cons _ _ => rw [hpat] at ht; cases ht
+          omega
+        -- the end string cannot reach the final newline of the input
+        have htne : t ≠ [] := by
+          intro ht0
+          subst ht0
+          rcases hin with h0 | hnl
+          · subst h0
+            simp at ht
+            exact hne ht
+          · have hl : (input.drop p).getLast? = some 10 := by
+              have hp : p < input.length := by
+                have : 0 < kw.2.length := by cases h : kw.2 with
+                  | nil => exact absurd h hne
+                  | cons _ _ => simp
+                omega
+              unfold EndsNL at hnl
+              rw [List.getLast?_drop]
+              simp [hnl]; omega
+            rw [ht, List.append_nil] at hl
+            exact hno 10 (List.mem_of_getLast? hl) rfl
+        have hlt : p + kw.2.length + 1 ≤ input.length := by
+          have : 0 < t.length := by cases t with
+            | nil => exact absurd rfl htne
+            | cons _ _ => simp
+          omega
+        have hrest : input.drop (p + kw.2.length + 1) = [] ∨ EndsNL (input.drop (p + kw.2.length + 1)) := by
+          rcases hin with h0 | hnl
+          · subst h0; left; simp
+          · exact endsNL_drop input _ hnl
+        have := line_step (input.drop (p + kw.2.length + 1)) hrest
+        have hdl : (input.drop (p + kw.2.length + 1)).length = input.length - (p + kw.2.length + 1) := by simp
+        have htl : (input.take (p + kw.2.length)).length = p + kw.2.length := by
+          simp; omega
+        cases hg : getline (input.drop (p + kw.2.length + 1)) with
+        | none =>
+          simp only [List.length_append, htl, List.length_cons, List.length_nil]
+          omega
+        | some lr =>
+          obtain ⟨line, rest⟩ := lr
+          rw [hg] at this
+          simp only [List.length_append, htl, List.length_cons, List.length_nil] at this ⊢
+          omega
+
+/-- `clean` (either path) never produces more bytes than it was given. -/
+theorem clean_length_le (kws : List (Bytes × Bytes)) (hk : ∀ kw ∈ kws, kw.2 ≠ [] ∧ ∀ b ∈ kw.2, b ≠ 10)
+    (input : Bytes) (h : input = [] ∨ EndsNL input) : (clean kws input).length ≤ input.length := by
+  unfold clean
+  split
+  · exact cleanSlow_length_le kws hk _ input h
+  · exact fastClean_length_le input h
+
 /-- `find_terminator`'s recursion terminates within `length + 1` calls and agrees with the
 total state machine (restated from `LexMirror` for the C20 check). -/
 theorem findTerminator_total (l : Bytes) :
